@@ -10,7 +10,7 @@ EXPLANATION = (
     "(R-C08-cursor) the log offset recorded per outgoing packet id is the forwarded item's own: native_readv's entries keep item.1, Forward.cursor is the item's offset, "
     "push_forwards records (assigned pkid, filter_idx, p.cursor), and retransmission_map keeps the first cursor per filter; "
     "(R-C08-restore) in handle_new_connection ConnAck.session_present = !clean_session && <saved session exists>, the tracker handed to the scheduler is the saved one only on the !clean_session edge "
-    "(Tracker::new on the clean edge), and the restoring closure puts back subscriptions and unacked_pubrels; "
+    "(Tracker::new on the clean edge), the restoring closure puts back subscriptions and unacked_pubrels, and the restored subscriptions are entered into subscription_map under the new connection id; "
     "(R-C08-single-home) the graveyard map is written only by save_state / save_metrics / retrieve. "
     "NOT decided: that the rewound cursor is the oldest unacknowledged one (value), delivery of messages accepted while away, retention.")
 ASSUMPTIONS = ["rustc MIR construction is correct"]
@@ -208,6 +208,25 @@ def restore(ctx, prog):
     else:
         ctx.violation(rule, body.id, "stored session consumed by a refused connect",
                       "a path takes the stored session out of the graveyard and returns without registering the connection (e.g. the max_connections refusal): the session is lost", site=body.loc(body.blocks[retr[0]]["t"].get("sp")))
+    # a resumed session's subscriptions are registered under the NEW connection id in the filter -> subscribers map
+    # (handle_disconnection took the old id out): otherwise the subscription cannot be given up again
+    slab_ins = [(bb, t) for bb, t in body.calls() if re.search(r"^slab::Slab::<T>::insert$", callee_path(t)) and not body.is_cleanup(bb)]
+    reg = False
+    for bb, t in body.calls():
+        if body.is_cleanup(bb) or not re.search(r"HashSet::<T, S(, A)?>::insert$", callee_path(t)):
+            continue
+        recv = flatten_src(provenance(body, t["args"][0], through_calls=[r"Entry::<'a, K, V(, A)?>::or_default$", r"Entry::<'a, K, V(, A)?>::or_insert(_with)?$", r"HashMap::<K, V, S(, A)?>::(entry|get_mut)$", r"Option::<T>::unwrap$"]))
+        in_map = any(getattr(x, "fields", None) and x.fields[-1] == "subscription_map" for x in recv)
+        val = flatten_src(provenance(body, t["args"][1]))
+        new_id = bool(val) and all(x.kind == "call" and x.path.endswith("Slab::<T>::insert") for x in val)
+        if in_map and new_id:
+            reg = True
+    if reg:
+        ctx.ok(rule, body.id, "restored subscriptions are entered into subscription_map under the new connection id")
+    else:
+        ctx.violation(rule, body.id, "restored subscriptions not registered under the new id",
+                      "handle_new_connection restores a session's subscriptions into the connection and tracker but never enters the new connection id into subscription_map (handle_disconnection removed the old one): "
+                      "an UNSUBSCRIBE of the resumed client is answered NoSubscriptionExisted and the subscription stays in force", site=body.fn_loc())
     # ConnAck.session_present
     found = False
     for bi, b in enumerate(body.blocks):
